@@ -56,8 +56,18 @@ class Project:
     def bob(self, *args, env=None, timeout=300, cwd=None):
         e = dict(self.env)
         if env: e.update(env)
-        p = subprocess.run([PY, '-c', BOB] + list(args), cwd=cwd or self.dir, capture_output=True, text=True, env=e, timeout=timeout)
-        return p.returncode, p.stdout + p.stderr
+        # output goes to a file and the child gets its own process group: a hard-killed bob orphans helper
+        # processes (multiprocessing fork server) that would otherwise keep a pipe open
+        import signal
+        with tempfile.TemporaryFile(mode='w+') as log:
+            p = subprocess.Popen([PY, '-c', BOB] + list(args), cwd=cwd or self.dir, env=e, stdin=subprocess.DEVNULL, stdout=log,
+                                 stderr=subprocess.STDOUT, start_new_session=True)
+            try: rc = p.wait(timeout=timeout)
+            except subprocess.TimeoutExpired: rc = -9
+            try: os.killpg(p.pid, signal.SIGKILL)
+            except OSError: pass
+            log.seek(0)
+            return rc, log.read()
     def query(self, sandbox=False, defines=(), env=None):
         e = dict(self.env)
         if env: e.update(env)
@@ -106,7 +116,7 @@ def gen_model(rnd, n=None):
             r['checkoutScript'] = 'echo src-%s > s%d.txt\n' % (name, i)
         r['buildVars'] = [v]
         r['buildScript'] = ('echo "%s ${%s}" > out.txt\n' % (name, v)) + ('[ -d "$1" ] && cp -r "$1"/* . || true\n' if 'checkoutScript' in r else '') + \
-                           'for i in "${@:2}" ; do cat "$i"/result.txt >> deps.txt ; done\n'
+                           'rm -f deps.txt\nfor i in "${@:2}" ; do cat "$i"/result.txt >> deps.txt ; done\n'
         r['packageScript'] = 'cat "$1"/out.txt > result.txt\n[ -e "$1"/deps.txt ] && cat "$1"/deps.txt >> result.txt || true\n'
         if rnd.random() < .3:
             r['provideVars'] = {'P%d' % i: 'provided-${%s}' % v}
